@@ -599,10 +599,10 @@ AssertionStep(G, pr, f) ==
   CASE pc = "ja.client" -> IF f # "none" THEN Done(G, pr, "invalid_client", "client_lookup_failed") ELSE Goto(G, pr, "ja.valid")
     [] pc = "ja.valid" -> IF f # "none" \/ JTIKnown(st.S, j) THEN Done(G, pr, "jti_known", "jti_replayed") ELSE Goto(G, pr, "ja.set")
     [] pc = "ja.set" ->
-         IF f # "none" THEN Done(G, pr, "error", "storage_failure")
+         IF f # "none" THEN Done(G, pr, RawErr(f), "storage_failure")      \* SetClientAssertionJWT's error is returned as it is
          ELSE IF JTIKnown(st.S, j) THEN Done(G, pr, "jti_known", "jti_replayed")
          ELSE Goto(SetS(G, MarkJTI(st.S, j)), pr, "ja.createAT")
-    [] pc = "ja.createAT" -> IF f # "none" THEN Done(G, pr, "server_error", "storage_failure") ELSE Issue("J", Subject)
+    [] pc = "ja.createAT" -> IF f # "none" THEN Done(G, pr, RawErr(f), "storage_failure") ELSE Issue("J", Subject)
     [] pc = "jb.getkey" -> IF f # "none" THEN Done(G, pr, "invalid_grant", "assertion_key_unknown") ELSE Goto(G, pr, "jb.used")
     [] pc = "jb.used" ->
          IF f # "none" THEN Done(G, pr, "server_error", "storage_failure")
@@ -611,7 +611,7 @@ AssertionStep(G, pr, f) ==
     [] pc = "jb.mark" ->
          IF f # "none" \/ JTIKnown(st.S, j) THEN Done(G, pr, "server_error", "jti_replayed")
          ELSE Goto(SetS(G, MarkJTI(st.S, j)), pr, "jb.createAT")
-    [] OTHER -> IF f # "none" THEN Done(G, pr, "server_error", "storage_failure") ELSE Issue("", "sub-1")
+    [] OTHER -> IF f # "none" THEN Done(G, pr, RawErr(f), "storage_failure") ELSE Issue("", "sub-1")   \* jb.createAT
 
 PStep(G, pr0, f) ==
   LET pr == IF f # "none" THEN [pr0 EXCEPT !.l.inj = TRUE] ELSE pr0 IN     \* ghosts are only recorded for fault-free requests
